@@ -68,9 +68,12 @@ def perturbed(desc, pars, keys, rng, names):
     return d2, p2, pv
 
 
-def one(M, rec, rng, g, desc, pars, st):
+def one(M, rec, rng, g, desc, pars, st, concat=False):
     cand = CC.candidate_params(desc, pars)
     keys = rng.sample(cand, rng.randint(1, min(7, len(cand))))
+    if concat:  # at least two element parameters, handed over as one concatenated entry
+        el_ = [k_ for k_ in cand if k_[0] != "#"]
+        keys = rng.sample(el_, min(len(el_), rng.randint(2, 4))) + [k_ for k_ in keys if k_[0] == "#"][:1]
     rng.shuffle(keys)
     opts = CC.random_opts(rng, 0.15) if rng.random() < 0.3 else {}
     ops = D.random_ops(desc, rng)
@@ -78,12 +81,15 @@ def one(M, rec, rng, g, desc, pars, st):
     if rng.random() < 0.25 and not any(k_ == ("#", "T") for k_ in keys):
         T2 = rng.choice([t for t in (5.0, 7.5, 10.0, 15.0, 20.0) if abs(t / 3600.0 - pars["T"]) > 1e-9]) / 3600.0
     try:
-        sym = CC.CompileCase(M, rng, desc, pars, st, keys, opts, ops=ops, stacked=(rng.random() < 0.3), restep_T=T2)
+        sym = CC.CompileCase(M, rng, desc, pars, st, keys, opts, ops=ops, stacked=("concat" if concat else rng.random() < 0.3), restep_T=T2)
         if T2 is not None:
             pars = dict(pars, T=T2)  # the numeric twin is built directly at the last sampling time
             rec.count("cases_stepped_again_with_another_sampling_time")
         if sym.stacked:
             rec.count("cases_with_one_stacked_vector_parameter")
+            if sym.concatenated:
+                rec.count("cases_with_one_parameter_entry_concatenated_from_single_symbols")
+                rec.seen("concatenated_parameter_entries", st)
     except Exception as e:
         rec.count("symbolic_step_failed")
         rec.seen("failed", repr(e)[:100])
@@ -238,7 +244,7 @@ def run(M, rec, tier, seed, k, n):
         desc = g.all_kinds_network() if it % 5 == 0 else g.network(shape)[1]
         pars = g.pars(delta=True if it % 2 == 0 else None, phi=True if it % 3 == 0 else None)
         for st in ("SX", "MX"):
-            one(M, rec, rng, g, desc, pars, st)
+            one(M, rec, rng, g, desc, pars, st, concat=(it % 5 == 3))
     user_kind_with_a_keyword_parameter(M, rec, rng, 12 if tier == "quick" else 100)
 
 
